@@ -634,6 +634,53 @@ func (e *Exec) callBuiltin(caller *frame, fn *ssa.Builtin, args []Value) Value {
 		return nil
 	case "print", "println":
 		return nil
+	case "SliceData":
+		sl := args[0].(Slice)
+		if len(sl.c) == 0 {
+			if cap(sl.c) == 0 {
+				return Ptr{}
+			}
+			full := sl.c[:1]
+			return Ptr{cell: &full[0], obj: sl.obj, idx: sl.off}
+		}
+		return Ptr{cell: &sl.c[0], obj: sl.obj, idx: sl.off}
+	case "StringData":
+		st := args[0].(*StrV)
+		ao := e.newArr(len(st.b), types.Typ[types.Uint8], false)
+		for i, b := range st.b {
+			ao.cells[i] = b
+		}
+		if len(ao.cells) == 0 {
+			return Ptr{}
+		}
+		return Ptr{cell: &ao.cells[0], obj: ao, idx: 0}
+	case "String":
+		p := args[0].(Ptr)
+		n := e.concretizeLen(args[1].(*Term), types.Typ[types.Int], "unsafe.String: len out of range")
+		if n == 0 {
+			return e.emptyStr
+		}
+		if p.obj == nil || p.idx+n > len(p.obj.cells) {
+			e.unsupported("unsafe.String on a non-array pointer")
+		}
+		b := make([]*Term, n)
+		for i := 0; i < n; i++ {
+			b[i] = p.obj.cells[p.idx+i].(*Term)
+		}
+		return &StrV{b: b}
+	case "Slice":
+		p := args[0].(Ptr)
+		n := e.concretizeLen(args[1].(*Term), types.Typ[types.Int], "unsafe.Slice: len out of range")
+		if p.IsNil() {
+			if n == 0 {
+				return Slice{}
+			}
+			e.targetPanicStr("unsafe.Slice: ptr is nil and len is not zero")
+		}
+		if p.obj == nil || p.idx+n > len(p.obj.cells) {
+			e.unsupported("unsafe.Slice on a non-array pointer")
+		}
+		return Slice{c: p.obj.cells[p.idx : p.idx+n : p.idx+n], obj: p.obj, off: p.idx}
 	case "recover":
 		return e.doRecover(caller)
 	case "ssa:wrapnilchk":
